@@ -380,7 +380,7 @@ Section FlatStep.
     unfold construct. rewrite Hnr. destruct (fisdir (c_root C) t); [|discriminate].
     unfold add_watch. destruct (mem_nat _ _); [discriminate|].
     destruct (kadd_watch kinit t (c_root C) (c_mask C)) as [[k1 wd]|]; [|discriminate].
-    intros H. inversion H; subst. cbn [rinit0 wfp pfw mvf aset]. unfold flat_inv. cbn [wfp pfw mvf pend alookup].
+    intros H. inversion H; subst. rewrite unlabel_fresh by reflexivity. cbn [rinit0 wfp pfw mvf aset]. unfold flat_inv. cbn [wfp pfw mvf pend alookup].
     split; [|split; [|split]].
     - intros p wd0. destruct (beqb p (c_root C)) eqn:E; [|discriminate]. intros _. now apply beqb_eq.
     - intros wd0 p. destruct (N.eqb wd0 wd); [|discriminate]. intros Hp. now inversion Hp.
